@@ -24,3 +24,13 @@ CASES = [
     m("prefactor applied for raw spectra too", "C11-D", "        if not raw:\n            data = axis.data*data", "        if True:\n            data = axis.data*data", 3),
     t("roll written with shift keyword", "        ft = numpy.roll(numpy.flipud(ft), 1)\n        # cut the center of the spectrum\n        return", "        ft = numpy.roll(numpy.flipud(ft), 1)\n        # cut the centre\n        return"),
 ]
+
+AGB = "quantarhei/builders/aggregate_base.py"
+CASES += [
+    m("dipole operator built on the aggregate's working array", "C11-E",
+      "        trdata[:,:,:] = DD[:,:,:]\n        self.TrDMOp = TransitionDipoleMoment(data=trdata)",
+      "        self.TrDMOp = TransitionDipoleMoment(data=DD)", path=AGB),
+    t("dipole operator built on an explicit copy", 
+      "        trdata[:,:,:] = DD[:,:,:]\n        self.TrDMOp = TransitionDipoleMoment(data=trdata)",
+      "        self.TrDMOp = TransitionDipoleMoment(data=DD.copy())", path=AGB),
+]
